@@ -36,7 +36,7 @@ func (c *idleRWC) Close() error {
 
 func TestC08FixFrame(t *testing.T) {
 	rec := evid.New(t, "C08", "a received dialect frame is edited (new field values of the same or another message type) and passed to Node.FixFrame, then written; the next hop (with the outgoing key as incoming key when the frame arrived signed) must deliver the edited message; non-trivial = the edit changes the payload; distinct by hash of (input frame, edited payload, key)")
-	rec.Require("signed+outkey", "unsigned", "v1", "type-changed")
+	rec.Require("signed+outkey", "unsigned", "v1", "type-changed", "edit-identity-signed+outkey", "edit-sig-fields-signed+outkey")
 	dpool := pool(t)
 	type nodeKey struct {
 		d    int
@@ -80,18 +80,55 @@ func TestC08FixFrame(t *testing.T) {
 		keyd := rapid.Bool().Draw(t, "outkey")
 		o := gen.FrameOpts{}
 		f, lay, _ := validFrame(t, di, o, &fixKey)
+		foreign := f.Signed() && keyd && rapid.IntRange(0, 3).Draw(t, "foreign_key") == 0
+		if foreign {
+			// the frame arrives signed by somebody else (this hop does not verify); the node re-signs it with its own key
+			f.Sig = f.SignatureFor([32]byte{0xEE, 1})
+		}
 		in := f.Bytes()
 		var inKey *[32]byte
 		if f.Signed() && keyd {
 			inKey = &fixKey
 		}
-		fr, _, err := readOne(in, di, inKey)
+		readKey := inKey
+		if foreign {
+			readKey = nil
+		}
+		fr, _, err := readOne(in, di, readKey)
 		if err != nil {
 			t.Fatalf("BROKEN: generated frame not accepted: %v", err)
 		}
 		// the application edits the message
 		newLay := lay
 		cls := []string{}
+		editKind := rapid.SampledFrom([]string{"message", "message", "message", "identity", "sig-fields"}).Draw(t, "edit_kind")
+		if editKind != "message" {
+			// edits that leave message and checksum untouched: FixFrame must still produce a signature that
+			// verifies under the outgoing key (it covers link id, timestamp and key as well)
+			if f.Signed() && editKind == "sig-fields" {
+				ff := fr.(*frame.V2Frame)
+				ff.SignatureLinkID = gen.Byte().Draw(t, "new_link")
+				ff.SignatureTimestamp = gen.Timestamp48().Draw(t, "new_ts")
+			}
+			n := nodeFor(nodeKey{dIdx, true, keyd})
+			if err := n.FixFrame(fr); err != nil {
+				t.Fatalf("FixFrame failed on an unedited %s frame: %v", lay.MsgName, err)
+			}
+			w, err := writeOne(fr, di.rw)
+			if err != nil {
+				t.Fatalf("writing the fixed frame failed: %v", err)
+			}
+			if _, _, err := readOne(w.all(), di, inKey); err != nil {
+				evid.ReplayNote("C08", "TestC08FixFrame", fmt.Sprintf("input %x edit=%s forwarded %x\n%v", in, editKind, w.all(), err))
+				t.Fatalf("after a %s edit + FixFrame the next hop (inKey=%v) rejects %x: %v (input %x)", editKind, inKey != nil, w.all(), err, in)
+			}
+			c := "edit-" + editKind
+			if f.Signed() && keyd {
+				c += "-signed+outkey"
+			}
+			rec.Case(f.Signed() && keyd, evid.Hash(in, []byte(editKind), []byte{b2i(keyd)}), c)
+			return
+		}
 		if rapid.IntRange(0, 3).Draw(t, "change_type") == 0 {
 			id := di.ids[rapid.IntRange(0, len(di.ids)-1).Draw(t, "newmsg")]
 			if f.V2 || id <= 255 {
